@@ -28,6 +28,7 @@ class FnSpec:
         self.loops = kw.pop('loops', {})
         self.closures = kw.pop('closures', {})
         self.hints = kw.pop('hints', [])
+        self.hint_obligations = kw.pop('hint_obligations', [])   # labelled assertions inside hints: E(label, descr, props)
         self.mut_self = kw.pop('mut_self', False)        # N3
         self.mut_fields = kw.pop('mut_fields', [])       # N3
         self.mut_params = kw.pop('mut_params', [])       # N3
@@ -195,8 +196,10 @@ def generate(unit, repo, vacuity=False):
             try:
                 if spec.ret:
                     text = A.set_return_name(text, spec.ret)
-                text = A.insert_closures(text, {n: dict(c, requires=[(('closure%d.req.' % n) + l, e) for (l, e) in c.get('requires', [])],
-                                                         ensures=[(('closure%d.ens.' % n) + l, e) for (l, e) in c.get('ensures', [])])
+                def cname(n):
+                    return ('closure%d' % n) if isinstance(n, int) else 'closure[%s]' % A.squash(n)
+                text = A.insert_closures(text, {n: dict(c, requires=[((cname(n) + '.req.') + l, e) for (l, e) in c.get('requires', [])],
+                                                         ensures=[((cname(n) + '.ens.') + l, e) for (l, e) in c.get('ensures', [])])
                                                 for n, c in spec.closures.items()})
                 loops = {}
                 for n, l in spec.loops.items():
@@ -236,7 +239,9 @@ def generate(unit, repo, vacuity=False):
                     g.obligations['%s::%s::loop%d.ens.%s' % (unit.name, key, n, c.label)] = dict(props=c.props or fprops, fn=key, kind='loop ensures', expr=c.expr)
             for n, c in spec.closures.items():
                 for (l, e) in c.get('ensures', []):
-                    g.obligations['%s::%s::closure%d.ens.%s' % (unit.name, key, n, l)] = dict(props=fprops, fn=key, kind='closure postcondition', expr=e)
+                    g.obligations['%s::%s::%s.ens.%s' % (unit.name, key, cname(n), l)] = dict(props=fprops, fn=key, kind='closure postcondition', expr=e)
+            for c in spec.hint_obligations:
+                g.obligations['%s::%s::hint.%s' % (unit.name, key, c.label)] = dict(props=c.props or fprops, fn=key, kind='assertion in proof hint', expr=c.expr)
             g.obligations['%s::%s::safety' % (unit.name, key)] = dict(
                 props=spec.safety_props.split() if spec.safety_props else fprops, fn=key, kind='body safety',
                 expr='callee preconditions, asserts/expect/unwrap (panic freedom), index bounds, arithmetic overflow, termination')
